@@ -9,6 +9,7 @@ import Mathlib.Tactic.Ring
 import Mathlib.Algebra.Order.Field.Basic
 import Mathlib.Algebra.Order.Ring.Rat
 import Retro.Props.C19.Period
+import Retro.Props.C19.Unit
 
 namespace Retro.Props.C19
 open Retro Retro.Rand
